@@ -866,20 +866,29 @@ func (rles *RLEs) UnmarshalBinary(b []byte) error {
 // This will likely be more efficient for very large RLEs that are being streamed
 // into the server.
 func (rles *RLEs) UnmarshalBinaryReader(r io.Reader, numRLEs uint32) error {
-	*rles = make(RLEs, numRLEs, numRLEs)
+	// The count comes from the client: do not allocate for more spans than a modest
+	// stream could hold before any of them has been read; the slice grows as they arrive.
+	const maxPrealloc = 1 << 16
+	prealloc := numRLEs
+	if prealloc > maxPrealloc {
+		prealloc = maxPrealloc
+	}
+	*rles = make(RLEs, 0, prealloc)
 	for i := uint32(0); i < numRLEs; i++ {
-		if err := binary.Read(r, binary.LittleEndian, &((*rles)[i].start[0])); err != nil {
+		var rle RLE
+		if err := binary.Read(r, binary.LittleEndian, &(rle.start[0])); err != nil {
 			return err
 		}
-		if err := binary.Read(r, binary.LittleEndian, &((*rles)[i].start[1])); err != nil {
+		if err := binary.Read(r, binary.LittleEndian, &(rle.start[1])); err != nil {
 			return err
 		}
-		if err := binary.Read(r, binary.LittleEndian, &((*rles)[i].start[2])); err != nil {
+		if err := binary.Read(r, binary.LittleEndian, &(rle.start[2])); err != nil {
 			return err
 		}
-		if err := binary.Read(r, binary.LittleEndian, &((*rles)[i].length)); err != nil {
+		if err := binary.Read(r, binary.LittleEndian, &(rle.length)); err != nil {
 			return err
 		}
+		*rles = append(*rles, rle)
 	}
 	return nil
 }
